@@ -1656,6 +1656,109 @@ Proof.
 Qed.
 
 (* ================================================================================================ *)
+(* "At most once per send interval" is a statement about ONE incident                                 *)
+(* ================================================================================================ *)
+
+(* The property's two sentences meet when a group flaps: ERR, OK, ERR two seconds apart with send-interval 60.  "Every
+   incident ... produces at least one open notification ... including the second and later incidents" demands a
+   notification for the second ERR; "at most once per send interval", read across incidents, forbids it.  The code
+   (after the F3 fix: the remembered times are forgotten when an incident opens) announces every incident; so the
+   interval clause holds within an incident (interval_respected) and NOT across incidents: *)
+Definition flap_mod : nmod := mkNmod 1 2 60 false false no_lists true.       (* threshold WARN, every 60 s, no send-close *)
+Definition flap_hist : nhist :=
+  [ HClusters 0 [1]; HRefresh 0 1 [1];
+    ev_response 100000000000 1 1 3; ev_response 101000000000 1 1 1; ev_response 102000000000 1 1 3 ].   (* ERR, OK, ERR *)
+
+Theorem interval_across_incidents_refuted :
+  exists mods h k i1 i2 m,
+    names_distinct mods /\ In m mods /\ interval_fits m /\
+    opens h k i1 /\ opens h k i2 /\ (i1 < i2)%nat /\
+    open_call mods h i1 (nm_name m) /\ open_call mods h i2 (nm_name m) /\
+    clock_at h i2 - clock_at h i1 <= nm_interval m * 1000000000.
+Proof.
+  exists [flap_mod], flap_hist, (1, 1), 2%nat, 4%nat, flap_mod.
+  split; [repeat constructor; simpl; tauto|]. split; [simpl; auto|].
+  split; [unfold interval_fits, two63; simpl; lia|].
+  split.
+  { split; [exists 3; split; [reflexivity|lia]|]. intros i' Hi Hb. destruct i' as [|[|i']]; try lia;
+      destruct Hb as [s [H1 H2]]; vm_compute in H1; discriminate. }
+  split.
+  { split; [exists 3; split; [reflexivity|lia]|]. intros i' Hi Hb. destruct i' as [|[|[|[|i']]]]; try lia.
+    - destruct Hb as [s [H1 H2]]. vm_compute in H1. discriminate.
+    - destruct Hb as [s [H1 H2]]. vm_compute in H1. discriminate.
+    - exists 3%nat. split; [lia|left; reflexivity].
+    - destruct Hb as [s [H1 H2]]. vm_compute in H1. inversion H1. subst. lia. }
+  split; [lia|].
+  split; [eexists; split; [vm_compute; left; reflexivity|split; reflexivity]|].
+  split; [eexists; split; [vm_compute; left; reflexivity|split; reflexivity]|].
+  vm_compute. discriminate.
+Qed.
+
+(* one result makes at most one call - open or close - to a module *)
+Theorem one_call_per_module_per_event mods h j c1 c2 :
+  names_distinct mods -> In c1 (calls_at mods h j) -> In c2 (calls_at mods h j) -> nc_module c1 = nc_module c2 -> c1 = c2.
+Proof.
+  intros Hnd H1 H2 E.
+  destruct (calls_at_resp mods h j c1 H1) as [now [r Hj]].
+  destruct (calls_at_from mods h j now r c1 Hnd Hj H1) as [_ [m [Hm [Hn _]]]].
+  pose proof (calls_at_module mods h j now r m Hnd Hj Hm) as Hc. cbv zeta in Hc.
+  assert (I1 : In c1 (calls_of (nm_name m) (calls_at mods h j))).
+  { unfold calls_of. apply filter_In. split; [assumption|]. apply Z.eqb_eq. assumption. }
+  assert (I2 : In c2 (calls_of (nm_name m) (calls_at mods h j))).
+  { unfold calls_of. apply filter_In. split; [assumption|]. apply Z.eqb_eq. congruence. }
+  rewrite Hc in I1, I2. destruct (live_resp (state_at mods h j) r); [|contradiction].
+  destruct (eff_action m r _ now _); simpl in I1, I2; try contradiction;
+    destruct I1 as [<-|[]]; destruct I2 as [<-|[]]; reflexivity.
+Qed.
+
+(* ================================================================================================ *)
+(* Two responses of one group in flight (the tree before the per-group lock; documentation)            *)
+(* ================================================================================================ *)
+
+(* responseLoop starts one goroutine per response, and checkAndSendResponseToModules held only read locks: a second
+   result r2 of the same group could be handled completely while the first, r1, was waiting in the Notify call of its
+   first module (a slow HTTP endpoint).  r1's goroutine has already opened the incident; r2 finds it and - if it is OK -
+   closes it and clears ID and Start; r1's goroutine then writes the first module's LastNotify and goes on to the
+   remaining modules, reading cgroup.Start / cgroup.ID afresh. *)
+Definition overlap_step (mods : list nmod) (g : gstate) (next now : Z) (r1 r2 : nresp)
+  : gstate * list ncall * list ncall * Z :=          (* record, calls of r1, calls of r2, id counter *)
+  match mods with
+  | [] => let a := group_step true [] g next now r1 in
+          let b := group_step true [] (fst (fst a)) (snd a) now r2 in (fst (fst b), [], [], snd b)
+  | m :: ms =>
+      let opening := negb (is_some (g_start g)) && (1 <? nr_status r1) in
+      let g1 := if opening then mkG (Some next) (Some now) (fun _ => None) else g in
+      let next1 := if opening then next + 1 else next in
+      let gc := if module_accepts m r1 then notify_module m g1 now r1 (g_start g1) (g_id g1) else (g1, []) in
+      let b := group_step true mods g1 next1 now r2 in                 (* r2, start to finish, on the record as r1 left it *)
+      let g2 := fst (fst b) in
+      let g3 := match snd gc with [] => g2 | _ => set_last g2 (nm_name m) (g_last (fst gc) (nm_name m)) end in
+      let rest := notify_all ms g3 now r1 (g_start g3) (g_id g3) in
+      let g5 := if nr_status r1 =? 1 then mkG None None (g_last (fst rest)) else fst rest in
+      (g5, snd gc ++ snd rest, snd (fst b), snd b)
+  end.
+
+Definition ov_mods : list nmod := [ mkNmod 1 2 0 false true no_lists true; mkNmod 2 2 0 false true no_lists true ].
+
+(* ERR (opens the incident, first module slow) overlapped by OK: the second module is told about the ERR result after the
+   close has gone out, with no event id and no start time - "every notification ... carries the same non-empty event
+   id" fails.  (Replayed on the real code before the fix: findings/C13.json.) *)
+Theorem overlap_refuted_before_fix :
+  exists mods g next now r1 r2 c,
+    names_distinct mods /\ g = g_init /\ resp_key r1 = resp_key r2 /\ 1 < nr_status r1 /\
+    In c (snd (fst (fst (overlap_step mods g next now r1 r2)))) /\
+    nc_good c = false /\ nc_status c = nr_status r1 /\ nc_id c = None /\ nc_start c = None /\
+    (* handled one after the other, the same two results give that module the incident's id and start *)
+    (forall c', In c' (snd (fst (group_step true mods g next now r1))) -> nc_id c' = Some next /\ nc_start c' = Some now).
+Proof.
+  exists ov_mods, g_init, 1, 1000000000, (mkNresp 1 1 3), (mkNresp 1 1 1).
+  eexists. split; [repeat constructor; simpl; intuition discriminate|]. split; [reflexivity|]. split; [reflexivity|].
+  split; [simpl; lia|]. split; [vm_compute; right; left; reflexivity|].
+  split; [reflexivity|]. split; [reflexivity|]. split; [reflexivity|]. split; [reflexivity|].
+  intros c' Hc. vm_compute in Hc. destruct Hc as [<-|[<-|[]]]; split; reflexivity.
+Qed.
+
+(* ================================================================================================ *)
 (* Non-vacuity: a concrete history with two groups, group-list refreshes inside an incident (all groups, a superset,  *)
 (* a subset just before the closing OK), a group dropped in mid-incident and listed again, two incidents of one group  *)
 (* ================================================================================================ *)
